@@ -282,7 +282,7 @@ structure Tables where
   sal : List (Nat × Ends)                       -- `stereogenic_allenes`
   centers : List (Nat × (Nat × Nat))            -- `_stereo_cis_trans_centers`
   mol : MolView
-  deriving Repr
+  deriving Repr, DecidableEq
 
 /-- `atoms[x] == H` (only asked about neighbours whose atom `stereogenic_cumulenes` has already looked up) -/
 def isHOf (mol : MolView) (x : Nat) : Bool :=
